@@ -430,7 +430,7 @@ def tables(chk):
     bad = []
     tried = 0
     for n in names:
-        for v in (n[:-1], n + 'x', n + ' ', ' ' + n, n.lower(), n.upper(), n + ',', n[1:], n + '1', '0' + n):
+        for v in (n[:-1], n + 'x', n + ' ', ' ' + n, n.lower(), n.upper(), n + ',', n[1:], n + '1', '0' + n, n + '-1', n + '\n', n + '.', n.lstrip('0123456789') + n[:len(n) - len(n.lstrip('0123456789'))]):
             if v == n or v == '':
                 continue
             tried += 1
@@ -438,16 +438,16 @@ def tables(chk):
                 try:
                     atoms.ScatteringParams.for_isotope(v)
                     bad.append(('ScatteringParams', v))
-                except (ValueError, TypeError):
+                except Exception:  # noqa: BLE001   any refusal is a rejection: the kind of exception is not part of the property
                     pass
             try:
                 a = atoms.Atom.for_isotope(v)
-                el = re.match(r'(?:\d+)?([a-zA-Z]+)', v)[1]
-                if not (el in known_w and (v == el or v in known_m)):
-                    bad.append(('Atom', v))
-            except (ValueError, TypeError):
-                pass
-    chk.decided(f'{MOD}:lookups/near-miss-names-rejected[{tried} names: prefixes, suffixes, case, blanks]', not bad, detail=str(bad[:6]), meta={'evaluations': tried})
+            except Exception:  # noqa: BLE001
+                continue
+            mt = re.fullmatch(r'(?:\d+)?([a-zA-Z]+)', v)
+            if not (mt and mt[1] in known_w and (v == mt[1] or v in known_m)):
+                bad.append(('Atom', v, f'answered with Z={a.z}'))
+    chk.decided(f'{MOD}:lookups/near-miss-names-rejected[{tried} names: prefixes, suffixes, case, blanks, punctuation, mass number behind the symbol]', not bad, detail=str(bad[:6]), meta={'evaluations': tried})
     chk.extra['table_rows_enumerated'] = {'scattering_parameters': len(sp_rows), 'atomic_weights': len(w_rows) - 2, 'atomic_masses': len(m_rows) - 2}
     rw = atoms.reference_wavelength()
     chk.decided(f'{MOD}:reference_wavelength/1.7982-angstrom', rw.value == 1.7982 and rw.unit == sc.Unit('angstrom'))
